@@ -303,7 +303,7 @@ func (k Keeper) SetUpDebtRedemptionForCollector(ctx sdk.Context, appID uint64) e
 				k.SetAssetToAmount(ctx, value)
 				err := k.collector.DecreaseNetFeeCollectedData(ctx, appID, assetData.Id, data.NetFeesCollected)
 				if err != nil {
-					return nil
+					return err
 				}
 			}
 		}
